@@ -731,8 +731,10 @@ LABEL(exit)
 
 
 LABEL(getline)
-  INC(SP, 1)
+  INC(SP, 2)
   STORE(PC_ret, 0, FP)
+  // The call of malloc below uses FP_alt, which holds the caller's frame pointer.
+  STORE(FP_alt, 1, FP)
   __eval("stdlib.tiger_getline_preamble_reg(vm)")
   MOVE(R12, SP)
 
@@ -742,7 +744,8 @@ LABEL(getline)
 
   __eval("stdlib.tiger_getline_epilogue_reg(vm)")
   LOAD(PC_ret, 0, FP)
-  DEC(SP, 1)
+  LOAD(FP_alt, 1, FP)
+  DEC(SP, 2)
 
   RETURN(FP_alt, PC_ret)
 
